@@ -27,7 +27,7 @@ CFG = dict(
     ops2=("mul",),
     set_idx=("s1",),
     iops=("iadd",),
-    outs=(),
+    outs=(("multiply", 0),),
     max_live=5,
     values="narrow",
     setshape={(3,): ((3, 1),), (2, 2): ((4,),), (4,): ((2, 2),), (2,): ((1, 2),)},
@@ -214,6 +214,17 @@ class Exec:
                     if model.fam[n] not in touched and not same(impl.t[n].grad, G[n]):
                         self.failure = (i, st, "grad_changed", n, "gradient of a tensor outside the graph changed")
                         return
+                    if model.fam[n] in touched and n not in inG:
+                        # a view that took no part in this pass, of memory whose gradient was just recomputed: the
+                        # value of an earlier pass must be gone - it reads None or the matching view of the new gradient
+                        g = impl.t[n].grad
+                        own = model.owner(n)
+                        go = impl.t[own].grad if own in impl.t else None
+                        if own not in impl.t or impl.t[n].base is not impl.t[own]:
+                            continue  # MyGrad no longer treats it as a view of the owner (its base reference was dropped)
+                        if g is not None and (go is None or (g.size and not np.shares_memory(g, go))):
+                            self.failure = (i, st, "stale_grad", n, "after this backward pass %s.grad is neither None nor a view of %s.grad: a value of an earlier pass" % (n, own))
+                            return
                 G = snap(impl)
                 continue
             if kind == "null_grad":
